@@ -1,11 +1,13 @@
-"""C01 - see vf/props/brokerh.py (shared broker transition harness) and DESIGN.md section 3/C01."""
-from vf.props import brokerh
+"""C01 - cash is conserved across master account, portfolios and fills.
+(i) shared broker transition harness, one operation from a symbolic reachable state (vf/props/brokerh.py);
+(ii) thorough: genuinely multi-step symbolic histories (vf/props/history01.py) as a guard on the induction argument."""
+from vf.props import brokerh, history01
 
-EXPLANATION = brokerh.__doc__
+EXPLANATION = brokerh.__doc__ + '\n' + history01.__doc__
 ASSUMPTIONS = [
     'exact real arithmetic; round(x,2)/round(x) are uninterpreted functions with |round(x)-x| <= half a unit (ties not modelled)',
-    'structural bound: <= 2 portfolios, <= 2 assets, <= 2 builder fills per position, <= 2 (thorough 3) pending orders, one operation (two updates in thorough)',
-    'quotes: fresh symbolic (bid, ask) per update and asset from a stub data handler that records the dt it is asked for; bid != ask, positive unless a configuration says otherwise',
+    'structural bound: <= 2 portfolios, <= 2 assets, <= 2 builder fills per position, <= 2 (thorough 3) pending orders, one operation (two updates in thorough); thorough: 3-operation histories of symbolic kind',
+    'quotes: fresh symbolic (bid, ask) per update and asset from a stub data handler that records the dt it is asked for; bid != ask, positive',
     'fill quantities are non-zero integers |q| < 1e6; fee rates in [0,1]; instants are integer nanoseconds within 40 days of a Monday epoch; the builder instant lies in exchange hours',
     'fills are observed at the broker/portfolio boundary (Transaction objects passed to Portfolio.transact_asset)',
 ]
@@ -13,7 +15,8 @@ DEADLINE = {'quick': 1500, 'thorough': 3400}
 
 
 def configs(tier):
-    return brokerh.configs_for('C01', tier)
+    return brokerh.configs_for('C01', tier) + history01.configs(tier)
 
 
-make = brokerh.make
+def make(cfg):
+    return history01.make(cfg) if cfg['kind'] == 'history01' else brokerh.make(cfg)
